@@ -41,6 +41,120 @@ impl<'a> ActionContext for &Cx<'a> {
     fn patch(&self) -> Graph { self.g.new_patch() }
 }
 
+/// drive the real request handlers of iwes::router::server::Server
+fn run_server(op: &Value) -> Value {
+    use iwes::router::server::Server;
+    use iwes::router::{LspClient, ServerConfig};
+    use lsp_types::*;
+    let mut state = HashMap::new();
+    for (k, v) in op["state"].as_object().unwrap() {
+        state.insert(k.trim_end_matches(".md").to_string(), v.as_str().unwrap().to_string());
+    }
+    let mut server = Server::new(ServerConfig {
+        base_path: "/basepath".to_string(),
+        state,
+        sequential_ids: Some(false),
+        configuration: Default::default(),
+        lsp_client: LspClient::Unknown,
+    });
+    if let Some(edits) = op.get("edits").and_then(|e| e.as_array()) {
+        for e in edits {
+            server.handle_did_change_text_document(DidChangeTextDocumentParams {
+                text_document: VersionedTextDocumentIdentifier { uri: Url::parse(e["uri"].as_str().unwrap()).unwrap(), version: 1 },
+                content_changes: vec![TextDocumentContentChangeEvent { range: None, range_length: None, text: e["text"].as_str().unwrap().to_string() }],
+            });
+        }
+    }
+    let uri = Url::parse(op["uri"].as_str().unwrap()).unwrap();
+    let pos = Position::new(op["line"].as_u64().unwrap_or(0) as u32, op["character"].as_u64().unwrap_or(0) as u32);
+    let tdi = TextDocumentIdentifier { uri: uri.clone() };
+    let tdp = TextDocumentPositionParams { text_document: tdi.clone(), position: pos };
+    let edit_json = |we: &WorkspaceEdit| -> Value {
+        let mut deleted = vec![];
+        let mut created = vec![];
+        let mut edits = serde_json::Map::new();
+        if let Some(DocumentChanges::Operations(ops)) = &we.document_changes {
+            for o in ops {
+                match o {
+                    DocumentChangeOperation::Op(ResourceOp::Delete(d)) => deleted.push(d.uri.to_string()),
+                    DocumentChangeOperation::Op(ResourceOp::Create(c)) => created.push(c.uri.to_string()),
+                    DocumentChangeOperation::Op(_) => {}
+                    DocumentChangeOperation::Edit(te) => {
+                        let u = te.text_document.uri.to_string();
+                        let key = Key::from_file_name(u.trim_start_matches("file:///basepath/"));
+                        if let Some(OneOf::Left(t)) = te.edits.first() {
+                            edits.insert(u, blocks_of_markdown(&key, &t.new_text));
+                        }
+                    }
+                }
+            }
+        }
+        json!({"deleted": deleted, "created": created, "edits": Value::Object(edits)})
+    };
+    match op["request"].as_str().unwrap() {
+        "references" => serde_json::to_value(server.handle_references(ReferenceParams {
+            text_document_position: tdp,
+            work_done_progress_params: Default::default(),
+            partial_result_params: Default::default(),
+            context: ReferenceContext { include_declaration: false },
+        })).unwrap(),
+        "definition" => serde_json::to_value(server.handle_goto_definition(GotoDefinitionParams {
+            text_document_position_params: tdp,
+            work_done_progress_params: Default::default(),
+            partial_result_params: Default::default(),
+        })).unwrap(),
+        "prepare_rename" => serde_json::to_value(server.handle_prepare_rename(tdp)).unwrap(),
+        "rename" => match server.handle_rename(RenameParams {
+            text_document_position: tdp,
+            new_name: op["new_name"].as_str().unwrap_or("n").to_string(),
+            work_done_progress_params: Default::default(),
+        }) {
+            Ok(Some(we)) => json!({"ok": edit_json(&we)}),
+            Ok(None) => json!({"ok": null}),
+            Err(e) => json!({"err": e.message}),
+        },
+        "formatting" => {
+            let r = server.handle_document_formatting(DocumentFormattingParams {
+                text_document: tdi,
+                options: FormattingOptions { tab_size: 2, insert_spaces: true, ..Default::default() },
+                work_done_progress_params: Default::default(),
+            });
+            let key = Key::from_file_name(uri.to_string().trim_start_matches("file:///basepath/"));
+            json!(r.iter().map(|t| blocks_of_markdown(&key, &t.new_text)).collect::<Vec<_>>())
+        }
+        "symbols" => serde_json::to_value(server.handle_document_symbols(DocumentSymbolParams {
+            text_document: tdi,
+            work_done_progress_params: Default::default(),
+            partial_result_params: Default::default(),
+        })).unwrap(),
+        "hints" => serde_json::to_value(server.handle_inlay_hints(InlayHintParams {
+            work_done_progress_params: Default::default(),
+            text_document: tdi,
+            range: Range::new(Position::new(0, 0), Position::new(99, 0)),
+        })).unwrap(),
+        "code_action" => {
+            let mut out = vec![];
+            for line in [0u32, 2, 4, 6] {
+                let acts = server.handle_code_action(&CodeActionParams {
+                    text_document: tdi.clone(),
+                    range: Range::new(Position::new(line, 0), Position::new(line, 0)),
+                    context: Default::default(),
+                    work_done_progress_params: Default::default(),
+                    partial_result_params: Default::default(),
+                });
+                for a in acts {
+                    if let CodeActionOrCommand::CodeAction(ca) = a {
+                        let res = server.handle_code_action_resolve(&ca);
+                        out.push(json!({"title": ca.title, "has_edit": res.edit.is_some()}));
+                    }
+                }
+            }
+            json!(out)
+        }
+        other => json!({"error": format!("unknown request {}", other)}),
+    }
+}
+
 fn blocks_of_markdown(key: &Key, md: &str) -> Value {
     let mut g = Graph::new();
     g.from_markdown(key.clone(), md, MarkdownReader::new());
@@ -331,6 +445,7 @@ fn run_op(st: &mut St, op: &Value) -> Value {
             json!({})
         }
         "arena" => arena_json(gr(st)),
+        "server" => run_server(op),
         "action" => run_action(gr(st), op["provider"].as_str().unwrap(), op["target"].as_u64().unwrap()),
         "keys" => {
             let mut m = serde_json::Map::new();
